@@ -271,19 +271,24 @@ impl TxPool {
     pub(crate) fn remove_expired(&mut self, callbacks: &Callbacks) {
         let now_ms = ckb_systemtime::unix_time_as_millis();
 
-        let removed: Vec<_> = self
+        let expired: Vec<_> = self
             .pool_map
             .iter()
             .filter(|&entry| self.expiry + entry.inner.timestamp < now_ms)
-            .map(|entry| entry.inner.clone())
+            .map(|entry| entry.id.clone())
             .collect();
 
-        for entry in removed {
-            let tx_hash = entry.transaction().hash();
-            debug!("remove_expired {} timestamp({})", tx_hash, entry.timestamp);
-            self.pool_map.remove_entry(&entry.proposal_short_id());
-            let reject = Reject::Expiry(entry.timestamp);
-            callbacks.call_reject(self, &entry, reject);
+        for id in expired {
+            // An expired transaction leaves together with its descendants: they spend (or depend
+            // on) its outputs and cannot be resolved without it. An id that already left as a
+            // descendant of an earlier expired entry yields nothing here.
+            let removed = self.pool_map.remove_entry_and_descendants(&id);
+            for entry in removed {
+                let tx_hash = entry.transaction().hash();
+                debug!("remove_expired {} timestamp({})", tx_hash, entry.timestamp);
+                let reject = Reject::Expiry(entry.timestamp);
+                callbacks.call_reject(self, &entry, reject);
+            }
         }
     }
 
